@@ -153,7 +153,21 @@ Merge(s, o) ==
   /\ nextId' = nextId /\ nops' = nops + 1
   /\ lastop' = [op |-> "merge", s |-> s, o |-> o, keys |-> {}, res |-> Len(sch) + 1, id |-> 0]
 
+\* a.Merge(b, c): fields, tests and transforms of a, then b, then c
+MergeOf(x, y) == [fields |-> [k \in Keys |-> IF y.fields[k] # 0 THEN y.fields[k] ELSE x.fields[k]], tests |-> x.tests \o y.tests, pts |-> x.pts \o y.pts]
+Merge3(s, o, o2) ==
+  /\ CanOp /\ s \in S /\ o \in S /\ o2 \in S /\ Len(sch) < MaxSchemas
+  /\ LET want == MergeOf(MergeOf(Visible(s), Visible(o)), Visible(o2))
+         t == FreshFrom(arrs, want.tests)
+         p == FreshFrom(t.arrs, want.pts)
+     IN /\ arrs' = p.arrs
+        /\ sch' = Append(sch, [fields |-> want.fields, tests |-> t.hdr, pts |-> p.hdr])
+        /\ intended' = Append(intended, MergeOf(MergeOf(intended[s], intended[o]), intended[o2]))
+  /\ nextId' = nextId /\ nops' = nops + 1
+  /\ lastop' = [op |-> "merge3", s |-> s, o |-> o, keys |-> {}, res |-> Len(sch) + 1, id |-> o2]
+
 Next ==
+  \/ \E s \in S, o \in S, o2 \in S : Merge3(s, o, o2)
   \/ \E s \in S : AddTest(s) \/ AddPT(s)
   \/ \E s \in S, ks \in SUBSET Keys : Pick(s, ks) \/ Omit(s, ks) \/ Extend(s, ks)
   \/ \E s \in S, o \in S : Merge(s, o)
